@@ -79,6 +79,7 @@ class Runner:
         self.crash_line = {}  # pid -> (line n, sig)
         self.crash_func = {}  # pid -> [function name, k-th traced line inside it, sig, counter]
         self.preempt = scn.get("cfg", {}).get("preempt", 0)
+        self.k.stall_den = scn.get("cfg", {}).get("stall", 0)
         self.k.on_idle.append(self.idle_hook)
         self.w.on_kill.append(self.on_proc_killed)
         if scn.get("cfg", {}).get("c14"):
@@ -298,6 +299,14 @@ class Runner:
         if kind == "ptask":
             kwargs["m"] = S.Plain(v=x)
         pre, init, explicit = [], [], []
+        # a consumer that hangs a pre-task on an upstream's output wrapper gets a wrapper of its
+        # own (marked as output of the same producer): hanging it on the wrapper shared by all
+        # consumers would make the identifiers of the *other* consumers depend on build order
+        priv = {}
+        for u, emb in t.get("deps", []):
+            if isinstance(emb, list) and emb[0] == "outpre" and emb[1] not in priv:
+                prod = st.obj[emb[1]]
+                priv[emb[1]] = prod.__xpm__.mark_output(S.Wrap(src=prod))
         for u, emb in t.get("deps", []):
             raw, out = st.obj[u], st.out[u]
             if emb == "direct":
@@ -309,7 +318,7 @@ class Runner:
             elif emb == "holder":
                 kwargs["holder"] = S.Holder(inner=raw)
             elif emb == "wrapped":
-                kwargs.setdefault("wrapped", []).append(out)
+                kwargs.setdefault("wrapped", []).append(priv.get(u, out))
             elif emb == "pre":
                 pre.append(S.Pre(src=out))
             elif emb == "init":
@@ -319,10 +328,7 @@ class Runner:
             elif isinstance(emb, list) and emb[0] == "outpre":
                 # a pre-task attached to the *output* of upstream emb[1] (a wrapper built after
                 # its producer was sealed) that refers to the output of u
-                if st.out[emb[1]].__xpm__._sealed:
-                    pre.append(S.Pre(src=out))      # wrapper already frozen by an earlier consumer
-                else:
-                    st.out[emb[1]].add_pretasks(S.Pre(src=out))
+                priv[emb[1]].add_pretasks(S.Pre(src=out))
             else:
                 raise AssertionError(emb)
         task = cls(**kwargs)
@@ -452,7 +458,13 @@ class Runner:
                 k.log("xp-wait-return", exc=type(e).__name__, unfinished=st.xp.unfinishedJobs,
                       states=self.job_states(st))
         elif name == "raise":
-            k.log("user-raise")
+            kind = op[1] if len(op) > 1 else "UserError"
+            k.log("user-raise", exc=kind)
+            k.count("probe:block-left-by-%s" % kind)
+            if kind == "SystemExit":
+                raise SystemExit(1)         # (what experiments/cli.py does itself inside the block)
+            if kind == "KeyboardInterrupt":
+                raise KeyboardInterrupt()
             raise UserError("raised in experiment block")
         elif name == "yield":
             for _ in range(op[1] if len(op) > 1 else 1):
